@@ -11,7 +11,7 @@ from .common import Acc, outcome_sig
 PROP = 'C13'
 # mutation -> (metadata changed, content changed)
 MUTS = {None: (False, False), 'touch': (True, False), 'touch1': (True, False), 'flip': (False, True), 'w': (True, True),
-        'grow': (True, True)}
+        'grow': (True, True), 'nul': (True, True)}
 
 
 def detects(cmp, m):
@@ -107,6 +107,19 @@ def scenarios():
             stale = (not rebuilt) and MUTS[m][1]
             out.append(dict(role='output_read_back_tampered', nested=nested, cmp='%s/%s' % (cmp_out, cmp_rd), m=m,
                             prog=prog, mutate=mut(m, 'a'), want=want, stale_ok=stale))
+    # R6 producer and reader inside ONE record, with different comparison modes; the output is tampered
+    for cmp_out, cmp_rd in itertools.product(CMPS, CMPS):
+        for hi, host in enumerate((lambda b, r: [sbn([b, r])], lambda b, r: [sbn([sbn([b, r], 2)])], lambda b, r: [bfn('d/x', [b, r])])):
+            for m in list(MUTS):
+                prod = bfn('a', [], cmp_out)
+                prog = {'level': 0, 'root': host(prod, rd('a', cmp_rd))}
+                hosts = [fname(n, 0) for n in _calls(prog['root']) if n is not prod]
+                rebuilt = detects(cmp_out, m)
+                rd_det = detects(cmp_rd, m)
+                want = (hosts + [fname(prod, 0)]) if rebuilt else (hosts if rd_det else [])
+                stale = (not rebuilt) and MUTS[m][1]
+                out.append(dict(role='read_back_inside_one_record', nested=hi >= 1, cmp='%s/%s' % (cmp_out, cmp_rd), m=m,
+                                prog=prog, mutate=mut(m, 'a'), want=want, stale_ok=stale))
     # R5 read back across a nested-subbuild boundary (both directions), inside one cached record
     for cmp_rd in CMPS:
         for shape in ('inner_reads_outer_output', 'outer_reads_inner_output'):
